@@ -59,6 +59,8 @@ def plan(tier, seed):
 
 
 def gen_value(r, form, quote):
+    if form.id == "md-paren" and r.random() < 0.25:
+        return r.choice(["\\w+\\(\\)", "f\\(x\\)", "a\\)b"])     # backslash-escaped parentheses are legal inside a (...) title
     for _ in range(20):
         v = "".join(r.choice(QCHARS) for _ in range(r.randint(0, 4)))
         if quote in v:
@@ -192,6 +194,12 @@ def build(r, fname, form):
             src2 = src
         feats |= fs
         open_c()
+        if multiline_ok and r.random() < 0.4:
+            # the tag sits on line k of a multi-line comment
+            for _ in range(r.randint(1, 3)):
+                b.raw(noise() or "words")
+                b.comment_nl()
+            feats.add("newline")
         pre = noise()
         if pre:
             b.raw(pre + r.choice([" ", ""]) if not pre.endswith(">") else pre)
@@ -214,6 +222,17 @@ def build(r, fname, form):
         if et != "</block>":
             feats.add("end-tag-whitespace")
         b.tag("end", et)
+        glued = form.kind == "line" and form.family != "md" and r.random() < 0.25
+        if glued:
+            # `</block><block>` : a bare start tag glued to the previous tag, ending the comment (and closed again below)
+            t2 = b.tag("start", "<block>", {})
+            feats.add("glued-bare-tag")
+            close_c()
+            expected.append((t2.line, t2.col, {}))
+            open_c()
+            b.tag("end", "</block>")
+            close_c()
+            continue
         if r.random() < 0.3:
             b.raw(" " + noise())
         close_c()
